@@ -230,6 +230,25 @@ func (g *guardEnv) predOfFact(f condFact, k elemKey, at *ssa.BasicBlock) predSet
 				}
 			}
 		}
+		// ... or the candidate itself is handed over and the helper walks its If list: allPass(each, request)
+		for li, a := range x.Call.Args {
+			if li >= len(cal.Params) || !isRouteish(a.Type()) || !sameKey(g.resolveKey(a), k) {
+				continue
+			}
+			rp := cal.Params[li]
+			for ri, ra := range x.Call.Args {
+				if !g.isReq(ra) || ri >= len(cal.Params) {
+					continue
+				}
+				isIfOf := func(v ssa.Value) bool {
+					b, fld, ok := fieldLoad(strip(v))
+					return ok && fld.Name() == "If" && (strip(b) == ssa.Value(rp) || p.sameVar(b, rp))
+				}
+				if universalCallScanOver(p, cal, isIfOf, cal.Params[ri]) {
+					return pIf
+				}
+			}
+		}
 		// a predicate method on the candidate taking a header-derived string
 		if !sameKey(g.resolveKey(x.Call.Args[0]), k) || !isRouteish(x.Call.Args[0].Type()) {
 			return 0
@@ -747,6 +766,12 @@ func (g *guardEnv) routeGuar(v ssa.Value) predSet {
 // functions) was called with parameter `arg` and returned true: the failing call cannot reach a
 // positive return, and a passing call only leads back to the loop.
 func universalCallScan(p *Program, h *ssa.Function, list, arg *ssa.Parameter) bool {
+	return universalCallScanOver(p, h, func(v ssa.Value) bool { return strip(v) == ssa.Value(list) }, arg)
+}
+
+// universalCallScanOver: as universalCallScan, with the scanned list given by a predicate (the list parameter, or
+// the field of a parameter that holds the list).
+func universalCallScanOver(p *Program, h *ssa.Function, isList func(ssa.Value) bool, arg *ssa.Parameter) bool {
 	if h.Blocks == nil {
 		return false
 	}
@@ -761,7 +786,7 @@ func universalCallScan(p *Program, h *ssa.Function, list, arg *ssa.Parameter) bo
 		if !ok {
 			return
 		}
-		if ia, ok := u.X.(*ssa.IndexAddr); ok && strip(ia.X) == ssa.Value(list) {
+		if ia, ok := u.X.(*ssa.IndexAddr); ok && isList(ia.X) {
 			cond = call
 		}
 	})
